@@ -245,6 +245,59 @@ def run(chk):
         chk.shape("R9", "render_parent_child_fragment/level-type", by_depth and not by_pos, by_pos, EXPAND, fi.line,
                   what="the intermediate struct of a nested parent is built with the type of another nesting level", expected="sub_path[depth].1", found=uses[:3] or src[:80])
     chk.guard("R9", r9)
+    chk.guard("R10", lambda: parent_path_contract(chk, "R10"))
+
+
+def parent_path_contract(chk, rule):
+    """convert_parent_child_field flattens the nested `#[parent([parent(..)] a: T, b)]` tree: evaluated concretely on a small tree with
+    sibling groups and two levels of nesting, every leaf must carry exactly the chain of its OWN ancestors (member, type) and the
+    token path `.anc1.anc2` built from that chain, leaves in source order with their own member and instructions."""
+    from ..pe import Evaluator, ListV, StructV, SymObj, Tag, explore, vkey
+    from ..tables import ATTR, IMPL_FILES
+    repo = chk.repo
+    chk.rule(rule, "nested parameterised #[parent]: each leaf's sub_path / sub_path_tokens is the chain of its own enclosing members (siblings independent, every level kept), leaves in source order", floor=6)
+    fi = repo.fn(ATTR, "convert_parent_child_field")
+    if len(fi.params) != 2:
+        raise Inconclusive("convert_parent_child_field: expected (fields, sub_path) parameters, found " + str(fi.params))
+
+    def mk(n, kids=None):
+        pa = Tag("None", [], enum="Option") if kids is None else Tag("Some", [ListV(kids)], enum="Option")
+        return StructV("ParentChildFieldAsParsed", {"this_member": SymObj("m_" + n, "Member"), "ty": SymObj("ty_" + n, "Option<syn::Path>"), "attrs": SymObj("attrs_" + n, "Vec"), "parent_attr": pa})
+    shape = [("a", None), ("l", [("l1", None)]), ("r", [("r1", None), ("rr", [("rr1", None)]), ("r2", None)]), ("z", None)]
+
+    def build(sh):
+        return [mk(n, None if k is None else build(k)) for n, k in sh]
+
+    def expect(sh, anc):
+        out = []
+        for n, k in sh:
+            if k is None:
+                out.append((n, list(anc)))
+            else:
+                out.extend(expect(k, anc + [n]))
+        return out
+    exp = expect(shape, [])
+
+    def mkev():
+        ev = Evaluator(repo, IMPL_FILES, shallow=False)
+        ev.concrete_iters = True
+        return ev
+    leaves = list(explore(mkev, lambda ev: ev.run_fn(fi, {fi.params[0]: ListV(build(shape)), fi.params[1]: ListV([])})))
+    if len(leaves) != 1 or leaves[0].panic or leaves[0].unsupported or not isinstance(leaves[0].value, ListV):
+        why = [str(l.panic or l.unsupported or vkey(l.value))[:80] for l in leaves][:2]
+        raise Inconclusive(f"convert_parent_child_field not evaluable on the concrete tree: {why}")
+    got = leaves[0].value.elems
+    if len(got) != len(exp) or not all(isinstance(g, StructV) for g in got):
+        chk.bad(rule, "parent-path/leaves", ATTR, fi.line, "nested parent tree is not flattened to one entry per leaf in source order", expected=[n for n, _ in exp], found=[vkey(g)[:60] for g in got][:8])
+        return
+    for (n, anc), g in zip(exp, got):
+        f_ = {k_: vkey(v_).replace(" ", "") for k_, v_ in g.fields.items()}
+        key = f"parent-path[{'/'.join(anc + [n])}]"
+        e_path = "[" + ",".join(f"(m_{a},ty_{a})" for a in anc) + "]"
+        e_toks = "«" + "".join(f".‹m_{a}›" for a in anc) + "»"
+        ok = f_.get("this_member") == "m_" + n and f_.get("attrs") == "attrs_" + n and f_.get("sub_path") == e_path and f_.get("sub_path_tokens") == e_toks
+        chk.expect(rule, key, ok, ATTR, fi.line, "leaf of a nested #[parent(...)] carries the wrong enclosing-member chain (a sibling's member leaks in, or a level is dropped from the path spliced into `~` / the source path)",
+                   expected={"this_member": "m_" + n, "sub_path": e_path, "sub_path_tokens": e_toks}, found={k_: f_.get(k_) for k_ in ("this_member", "sub_path", "sub_path_tokens")})
 
 
 def render_pat_(p):
